@@ -115,4 +115,79 @@ func c05(p *an.Prog, r *an.R, tier string) {
 		})
 	}
 	r.Floor("C05.R1.rebuild-literals", 10, lits)
+	c05Simplify(p, r)
+	c05Identity(p, r, rewriters)
+}
+
+// c05Simplify: the per-shard simplification of repository atoms counts a
+// repository as matching only if it is alive.
+func c05Simplify(p *an.Prog, r *an.R) {
+	r.Rule("C05.R2", "simplifyMultiRepo: the counter of matching repositories is incremented only where the repository's Tombstone flag tested false (otherwise `count == alive` folds an atom to TRUE although a live repository does not match)")
+	f := p.Func("index", "(*indexData).simplifyMultiRepo")
+	d := p.Decl(f)
+	tomb := p.Field("", "Repository", "Tombstone")
+	if !r.Anchor(d != nil && tomb != nil, "index.(*indexData).simplifyMultiRepo") {
+		return
+	}
+	info := d.Pkg.TypesInfo
+	g := an.NewG(info, d.Decl.Body)
+	n := 0
+	// the counters: variables compared with each other in `x == y`
+	for _, l := range g.Locs(func(ast.Node) bool { return true }) {
+		inc, ok := g.Node(l).(*ast.IncDecStmt)
+		if !ok || inc.Tok.String() != "++" {
+			continue
+		}
+		n++
+		guarded := g.GuardedBy(l, func(cond ast.Expr, truth bool) bool {
+			se, isSel := ast.Unparen(cond).(*ast.SelectorExpr)
+			return isSel && info.Selections[se] != nil && info.Selections[se].Obj() == tomb && !truth
+		}, nil)
+		r.Check(guarded, "C05.R2", "index.(*indexData).simplifyMultiRepo/match-counter/only-live-repositories", inc.Pos(), "a repository is counted as matching only when it is not tombstoned", "a tombstoned repository can be counted as matching: `count == alive` then holds although a live repository does not match, the atom is folded to TRUE (or FALSE under Not) and the rewritten query selects other documents than the original")
+	}
+	r.Floor("C05.R2.match-counters", 1, n)
+}
+
+// c05Identity: rewrites must not identify sub-queries by their String() form.
+func c05Identity(p *an.Prog, r *an.R, rewriters []struct{ pkg, fn string }) {
+	r.Rule("C05.R3", "the rewriting functions never use Q.String() (a lossy, log-oriented rendering: RepoIDs prints only a count, Regexp omits flags) to decide anything")
+	qI := p.Named("query", "Q")
+	n := 0
+	for _, rw := range rewriters {
+		f := p.Func(rw.pkg, rw.fn)
+		d := p.Decl(f)
+		if d == nil {
+			continue
+		}
+		info := d.Pkg.TypesInfo
+		bad := false
+		ast.Inspect(d.Decl.Body, func(nd ast.Node) bool {
+			c, ok := nd.(*ast.CallExpr)
+			if !ok {
+				return true
+			}
+			se, ok := ast.Unparen(c.Fun).(*ast.SelectorExpr)
+			if !ok || se.Sel.Name != "String" || len(c.Args) != 0 {
+				return true
+			}
+			t := info.TypeOf(se.X)
+			if t == nil {
+				return true
+			}
+			isQ := types.Identical(t, qI)
+			if nt := an.NamedOf(t); nt != nil && nt.Obj().Pkg() != nil && nt.Obj().Pkg().Path() == an.Mod+"/query" {
+				isQ = true
+			}
+			if isQ {
+				bad = true
+				r.Bad("C05.R3", an.FuncName(f)+"/uses-Q.String", c.Pos(), "a rewrite consults Q.String(): different sub-queries can print identically (RepoIDs, BranchesRepos, large RepoSet/FileNameSet, Regexp flags), so treating equal strings as equal queries drops or merges operands")
+			}
+			return true
+		})
+		n++
+		if !bad {
+			r.OK("C05.R3", an.FuncName(f)+"/no-Q.String", d.Decl.Pos(), "does not consult String()")
+		}
+	}
+	r.Floor("C05.R3.rewriters", 10, n)
 }
